@@ -109,6 +109,8 @@ func loadKey(ring, id string) *key {
 
 type world struct {
 	k1, k2, fresh *key
+	// zero: a generated key whose 64-bit key id begins with a zero hex digit (its 16-digit form has a leading zero)
+	zero *key
 }
 
 func copyFile(dst, src string) {
@@ -144,7 +146,27 @@ func newWorld(repo, scratch string) *world {
 	if err := f3.Close(); err != nil {
 		fatal(err)
 	}
-	wd := &world{k1: loadKey(r1, "26F5ABDA"), k2: loadKey(r2, ""), fresh: loadKey(r3, "")}
+	r4 := filepath.Join(scratch, "zero-secring.gpg")
+	var zent *openpgp.Entity
+	for {
+		if zent, err = openpgp.NewEntity("verif", "zero key", "zero@example.invalid", &packet.Config{RSABits: 2048}); err != nil {
+			fatal(err)
+		}
+		if zent.PrimaryKey.KeyId>>60 == 0 {
+			break
+		}
+	}
+	f4, err := os.OpenFile(r4, os.O_CREATE|os.O_WRONLY|os.O_TRUNC, 0600)
+	if err != nil {
+		fatal(err)
+	}
+	if err := jsonsign.WriteKeyRing(f4, openpgp.EntityList{zent}); err != nil {
+		fatal(err)
+	}
+	if err := f4.Close(); err != nil {
+		fatal(err)
+	}
+	wd := &world{k1: loadKey(r1, "26F5ABDA"), k2: loadKey(r2, ""), fresh: loadKey(r3, ""), zero: loadKey(r4, "")}
 	foldDecoy = wd.k2.ref
 	return wd
 }
@@ -273,14 +295,17 @@ type subject struct {
 }
 
 func (wd *world) fetcherAll() memFetcher {
-	return memFetcher{wd.k1.ref: wd.k1.pub, wd.k2.ref: wd.k2.pub, wd.fresh.ref: wd.fresh.pub}
+	return memFetcher{wd.k1.ref: wd.k1.pub, wd.k2.ref: wd.k2.pub, wd.fresh.ref: wd.fresh.pub, wd.zero.ref: wd.zero.pub}
 }
 
 // makeSubject signs the document for the scenario with the real SignRequest and prepares the verifier's world.
-func (wd *world) makeSubject(sid int, shp any, unsigned func(blob.Ref) string, scen string, st time.Time, useFresh bool) *subject {
+func (wd *world) makeSubject(sid int, shp any, unsigned func(blob.Ref) string, scen string, st time.Time, useKey int) *subject {
 	k1, k2 := wd.k1, wd.k2
-	if useFresh {
+	switch useKey {
+	case 1:
 		k1, k2 = wd.fresh, wd.k1
+	case 2:
+		k1, k2 = wd.zero, wd.k1
 	}
 	all := wd.fetcherAll()
 	un := unsigned(k1.ref)
@@ -656,7 +681,7 @@ func main() {
 			if su == nil {
 				nsid++
 				shp := c.Shape
-				su = wd.makeSubject(nsid, shp, func(r blob.Ref) string { return buildDoc(shp, r) }, c.Scen, sigTime(shp.Time), shp.Time == 3)
+				su = wd.makeSubject(nsid, shp, func(r blob.Ref) string { return buildDoc(shp, r) }, c.Scen, sigTime(shp.Time), map[int]int{3: 1, 2: 2}[shp.Time])
 				subjects[key] = su
 				if c.Kind != "none" {
 					su.base() // every swept subject is first verified unmutated (also names its shape in the trace)
@@ -686,7 +711,7 @@ func main() {
 			}
 			nsid++
 			shp := c.Shape
-			su := wd.makeSubject(nsid, shp, func(r blob.Ref) string { return buildDoc(shp, r) }, c.Scen, sigTime(shp.Time), shp.Time == 3)
+			su := wd.makeSubject(nsid, shp, func(r blob.Ref) string { return buildDoc(shp, r) }, c.Scen, sigTime(shp.Time), map[int]int{3: 1, 2: 2}[shp.Time])
 			if c.Kind == "none" {
 				su.base()
 			} else {
@@ -700,7 +725,7 @@ func main() {
 		nsid++
 		mk := randDoc(rng)
 		st := time.Unix(rng.Int63n(1<<33)-(1<<31), 0)
-		su := wd.makeSubject(nsid, map[string]any{"random": i}, mk, scens[rng.Intn(len(scens))], st, rng.Intn(4) == 0)
+		su := wd.makeSubject(nsid, map[string]any{"random": i}, mk, scens[rng.Intn(len(scens))], st, []int{1, 2, 0, 0}[rng.Intn(4)])
 		su.base()
 		for j := 0; j < *rmut; j++ {
 			kind := []string{"sub", "ins", "del"}[rng.Intn(3)]
